@@ -203,7 +203,18 @@ def run_case(prop, case, spec, scratch, stats):
             if not compare(a, b, rng, stats, "memory-vs-file", out, prop, -1):
                 return out, feats, digest
             ops = case["ops"]
+            held = []  # memory-mapped readers opened in mid-history and kept open while the stores grow
+            mid = rng.randrange(len(ops)) if ops and rng.random() < 0.6 else None
             for i, op in enumerate(ops):
+                if i == mid:
+                    for st, size in ((b.t.lru_trie_storage, 128), (b.t.links_store_storage, 16)):
+                        try:
+                            mp0 = st.map()
+                            held.append(mp0)
+                            mp0.read(0)  # (not compared here: what a mapping shows of writes still buffered is not specified)
+                            stats["C15_mmap_readers_held_open"] += 1
+                        except (ValueError, OSError):
+                            pass  # an empty file cannot be mapped
                 if not step(a, b, op, i, out, prop, stats):
                     return out, feats, digest
                 if (i + 1) % case["audit_every"] == 0 or i == len(ops) - 1:
@@ -235,6 +246,11 @@ def run_case(prop, case, spec, scratch, stats):
                         out.append(D([prop], "mmap-reader-past-end", store=size))
                 finally:
                     mp.release()
+            for mp0 in held:
+                try:
+                    mp0.release()
+                except Exception:
+                    pass
         feats = features(a)
         feats["mode"] = mode
         feats["positions"] = len(case.get("positions", []))
